@@ -189,6 +189,8 @@ def coerce(v: Val, s: Sort) -> Val:
             return v
         if isinstance(v, VOpt) and isinstance(v.sort.inner, TRefS):
             return VRef(z3.If(v.sort.is_none(v.t), 0, v.sort.the(v.t)), s.cls)
+    if isinstance(s, TAbs) and s.nm == "Any":
+        return VAbs(z3.FreshConst(s.z3(), "any"), s)
     if isinstance(s, TUnionRec):
         if isinstance(v, VRec) and v.sort == s:
             return v
